@@ -7,6 +7,7 @@ use crate::exec;
 use crate::gen::*;
 use crate::model::canon::{canonical_path, canonical_query, parse_query};
 use crate::model::verify::*;
+use crate::types::B;
 use proptest::prelude::*;
 use serde::{Deserialize, Serialize};
 use serde_json::json;
@@ -23,7 +24,41 @@ pub fn subs() -> Vec<Box<dyn AnySub>> {
             strat: || (plan(PlanOpts::default()), spelling()).prop_map(|(p, s)| Respell { plan: p, other: s }).boxed(),
             check: check_respell,
         }),
+        // keeps exercising the open known finding (literal '+' in a path) so that the KNOWN-FINDING line reflects the current tree
+        Box::new(Sub {
+            name: "plus-in-path-probe",
+            quick: 300,
+            thorough: 3_000,
+            strat: || {
+                plan(PlanOpts { plain_spelling: true, allow_s3: false, ..PlanOpts::default() })
+                    .prop_map(|mut p| {
+                        p.logical.segments.push(B::from("a+b"));
+                        p.spelling.plus_literal = true;
+                        p
+                    })
+                    .boxed()
+            },
+            check: check_plus_probe,
+        }),
     ]
+}
+
+pub fn check_plus_probe(p: &Plan, cc: &mut CaseCtx) -> CheckResult {
+    match check_plan_inner(p, cc) {
+        Ok(_) => Ok(()),
+        Err(f) if f.sig == "HARNESS" => Err(f),
+        Err(f) => {
+            // causal: the same request with the '+' escaped is accepted
+            let mut q = p.clone();
+            q.spelling.plus_literal = false;
+            let mut c2 = CaseCtx::default();
+            if matches!(check_plan_inner(&q, &mut c2), Ok(true)) {
+                Err(Failure::new(&format!("{}+literal-plus-in-path", f.sig), f.msg))
+            } else {
+                Err(f)
+            }
+        }
+    }
 }
 
 pub fn check_plan(p: &Plan, cc: &mut CaseCtx) -> CheckResult {
